@@ -10,7 +10,8 @@ from .common import Corr, f2hex, hex2f, frac2s, flist, parse_list
 
 ID = "C20"
 LEAN_MODULES = ["TempestVerif.Props.C20", "TempestVerif.Props.C20Audit", "TempestVerif.Props.C20Sites",
-                "TempestVerif.Props.C20VolVar", "TempestVerif.Props.C20Round", "TempestVerif.Props.C20RelRound"]
+                "TempestVerif.Props.C20VolVar", "TempestVerif.Props.C20Round", "TempestVerif.Props.C20RelRound",
+                "TempestVerif.Props.C20Source"]
 RULE = ("ess-T: weight vectors of length 1..1e4 (log-uniform exponents spanning up to 300 decades, up to 1e300, many zeros, one dominant, "
         "uniform) and log-weight vectors (incl. -inf entries, large shifts): Float model vs effective_sample_size/compute_ess, |d|<=1e-9(1+|v|); "
         "non-trivial = N>=2 and not all equal. ess-Q: integer weights with power-of-two sum times 2^e: every float operation up to the final "
@@ -59,6 +60,12 @@ MODELLED += ["volume_variation also has an EXECUTABLE model (Model/VolVar.lean, 
              "call sites: Model/TrimSites.lean (Trainer.run up to the fitting call, execute_iteration's object flow, "
              "_compute_metric_and_weights); the fitting routines, the clusterer and the history flattening are outside "
              "(C14, C15, C19, C07); compute_posterior's use of trim_weights is C12's model and suites"]
+MODELLED += ["SOURCE-DERIVED (translator G16, Props/C20Source.lean): effective_sample_size, compute_ess, trim_weights and volume_variation are "
+             "compiled from tools.py on every run (expressions, literals, broadcasting, branches, the while/break loop) into "
+             "Gen/ToolsSrc.lean, and the models the driver executes are proved equal to the compiled functions for every scalar type; "
+             "hand-written remain only the models of numpy LIBRARY routines (sum as a left fold, percentile, linspace, mask indexing, "
+             "max, inv, matrix_rank<d as 'inv fails', dot/matmul/sum(axis)/eye/trace/clip), the parameter kinds, the fuel of the loop "
+             "and the bins = 0 guard"]
 ASSUMPTIONS = ["weights are finite, non-negative, with positive sum; 0 < ess < 1; bins >= 1",
                "affine invariance of the volume metric holds on the full-rank branch only (carried as a hypothesis of C20_volvar_affine_invariant); "
                "the ridge-regularised branch (rank < d) is not affine invariant"]
@@ -687,8 +694,10 @@ def correspond(tier):
 
 def translators():
     # Props/C20Sites.lean states `C20_gen_trim_constants` on the regenerated TRIM_ESS / TRIM_BINS of /repo's config.py
-    from translate import g1_constants
-    return [g1_constants.generate()]
+    from translate import g1_constants, g16_tools
+    # Props/C20Source.lean proves that Model.Ess / Model.Trim / Model.VolVar ARE the four functions of tools.py as compiled from
+    # /repo's current source (Gen/ToolsSrc.lean, regenerated here)
+    return [g1_constants.generate(), g16_tools.generate()]
 
 
 # ------------------------------------------------------------------ property oracle on the real code
